@@ -455,6 +455,9 @@ func (cs *ContractSet) parseItem(file, pkgPath, header string, line int, clauses
 				if len(fs) >= 1 && fs[0] == "assumeensures" {
 					cs.Assumed = append(cs.Assumed, fmt.Sprintf("postconditions of %s.%s are assumed, not checked (its loop clauses and guards are checked)", pkgPath, c.Name))
 				}
+				if len(fs) >= 1 && fs[0] == "elemptr" {
+					cs.Assumed = append(cs.Assumed, fmt.Sprintf("in %s.%s the address of an element of a local slice handed to a callee is an opaque pointer: the callee is assumed not to write through it", pkgPath, c.Name))
+				}
 				if len(fs) >= 1 && fs[0] == "assumeframe" {
 					cs.Assumed = append(cs.Assumed, fmt.Sprintf("frame (modifies clause) of %s.%s is assumed, not checked", pkgPath, c.Name))
 				}
